@@ -2,10 +2,32 @@
    Statements only.  Proved: the primitives of the export table keep the count equation, the
    Release of an import carries exactly the references received and generations are never reused
    (F20), Close empties every table.  The history-level statements stay `_partial`. *)
-From CV Require Import Rpc.Rpc Rpc.RpcSpec Rpc.RpcProofs Rpc.RpcInv Rpc.RpcResp Rpc.RpcLocal Rpc.RpcRefuted.
+From CV Require Import Rpc.Rpc Rpc.RpcSpec Rpc.RpcProofs Rpc.RpcInv Rpc.RpcResp Rpc.RpcLocal Rpc.RpcHist Rpc.RpcQids Rpc.RpcRefuted.
 Open Scope Z_scope.
 
-(* export_count, FULL STATEMENT (not proved at this strength):
+(* ================= history-level theorem (second round) =================
+   export_count: in every state reached by a history, while the connection is up, for every export id
+     entry present -> wireRefs = sent - released > 0,   entry absent -> sent = released,
+   and the ids on the free list name empty slots (so sendCap's new entries start from sent = released).
+   [s_sent] / [s_rel] are cumulative ghost counters: sent is bumped exactly where a senderHosted
+   descriptor is written ([C07_sent_is_descriptors]); released by the count of every successful
+   releaseExport -- Release messages, Finish(releaseResultCaps), Return(releaseParamCaps) after the
+   repair of F19 ([C07_export_count_partial] below: the count is booked exactly, over-release is
+   refused without change). *)
+Theorem C07_export_count : forall boot evs s out, work evs < 4294967295 -> run_o (init boot) evs [] = Ok (s, out) -> s_shut s = false ->
+  exp_count (s_exp s) (s_sent s) (s_rel s) /\ slots_free (s_egen s) (s_exp s).
+Proof. exact export_count. Qed.
+Print Assumptions C07_export_count.
+Theorem C07_sent_is_descriptors : forall x s s1 d oe, send_cap cfg_fixed x s = Ok (s1, d, oe) ->
+  forall e, cget e (s_sent s1) = cget e (s_sent s) + (match d with DSH i => if e =? i then 1 else 0 | _ => 0 end) /\ s_rel s1 = s_rel s.
+Proof. exact send_cap_sent. Qed.
+Print Assumptions C07_sent_is_descriptors.
+(* import_release and close_releases_all remain at the strength of the first round (below): the
+   history-level forms need balances that thread through every release of a capability (all
+   handlers), which was not completed. *)
+
+(* ================= first round =================
+   export_count, FULL STATEMENT as first written (its invariant part is now C07_export_count):
      in every reachable state that is not shut down, for every export id e:
        entry present  -> wireRefs e = sent e - released e > 0,
        entry absent   -> sent e = released e,
